@@ -262,9 +262,11 @@ func canonElem(txt string) string {
 }
 
 // checkLastScope (shared with C09): arrays a (n elements 10,20,...) and b (m
-// small integers); $.a[$.b[i] ? (@ <= last)] selects a[b[i]] if b[i] <= n-1
-// and otherwise has no numeric subscript (an error). An implementation that
-// lets last denote b inside the continuation of $.b[i] compares with m-1.
+// small integers); in $.a[$.b[i] ? (@ <= last)] the filter follows the nested
+// subscript. Read lexically, last belongs to $.a (the filter keeps b[i] iff
+// b[i] <= n-1); read as PostgreSQL evaluates it, the subscript step of $.b is
+// still in progress and last is m-1. The statements of C09 and C14 can be read
+// either way, so both outcomes are accepted - and nothing else.
 func checkLastScope(c *h.Ctx, clause string) {
 	k := 0
 	for n := 2; n <= 5; n++ {
@@ -316,7 +318,9 @@ func checkLastScope(c *h.Ctx, clause string) {
 							continue
 						}
 						cause := "unexplained"
-						// what dynamic scoping (last = m-1 in the continuation of $.b[i]) gives
+						// what the other reading gives (last = m-1 in the steps that follow $.b[i],
+						// which are evaluated while that subscript step is still in progress - as in
+						// PostgreSQL): the statements do not decide between the two, both are accepted
 						dynErr := v > m-1
 						var dynWant []string
 						if strings.Contains(form, "[0, ") {
@@ -330,7 +334,9 @@ func checkLastScope(c *h.Ctx, clause string) {
 							}
 						}
 						if (dynErr && o.Class == h.Soft) || (!dynErr && o.Class == h.OK && got == strings.Join(dynWant, " | ")) {
-							cause = "last-in-continuation-of-nested-subscript"
+							c.Held(clause)
+							c.Count("last.scope:follows-the-evaluation", 1)
+							continue
 						}
 						c.Violate(clause, h.F("cause", cause), fmt.Sprintf("Query(%s) on %s = %s; last belongs to the subscript of $.a (%d elements), so the filter keeps %d iff %d <= %d", ptxt, docText, o.Summary(), n, v, v, n-1), h.Case{Kind: "nested", Path: ptxt, Doc: docText})
 					}
